@@ -710,3 +710,99 @@ Proof.
   - apply Forall_forall. intros col Hc. unfold ex_pads in Hc. apply in_map_iff in Hc as (c & <- & _).
     rewrite map_length, Nseq_length. lia.
 Qed.
+
+(* ---------------------------------------------------------------- vertex(): the wrapper (lib.rs:394-406) *)
+From AG Require Recon.Cluster Recon.Cluster_proofs Recon.Fit Recon.Fit_proofs.
+
+Lemma ok_filter_total {X Y} (f : X -> res Y) l : (forall x, In x l -> f x <> Panic) ->
+  exists ys, ok_filter f l = Ok ys /\ forall y, In y ys -> exists x, In x l /\ f x = Ok y.
+Proof.
+  induction l as [|a l IH]; cbn [ok_filter]; intros H.
+  - exists []. split; auto. intros y [].
+  - destruct IH as (ys & E & Hy). { intros; apply H; cbn; auto. }
+    destruct (f a) as [y0|k|] eqn:Ef.
+    + rewrite E. cbn [bind]. exists (y0 :: ys). split; auto.
+      intros y [<-|Hin]. exists a; cbn; auto. destruct (Hy y Hin) as (x & ? & ?). exists x; cbn; auto.
+    + exists ys. split; auto. intros y Hin. destruct (Hy y Hin) as (x & ? & ?). exists x; cbn; auto.
+    + exfalso. apply (H a); cbn; auto.
+Qed.
+
+Section VertexWrapper.
+  Context {A SP TR V : Type}.
+  Variable sp_of : A -> res SP.
+  Variable cluster : list SP -> res (list (list SP) * list SP).
+  Variable fit : list SP -> res TR.
+  Variable find : list TR -> res (option V * list TR).
+  Variable Pc : list SP -> Prop.     (* what clustering guarantees of a cluster and the fit needs *)
+
+  Theorem vertex_res_total avs :
+    (forall a, In a avs -> sp_of a <> Panic) ->
+    (forall pts, exists cl rem, cluster pts = Ok (cl, rem) /\ forall c, In c cl -> Pc c) ->
+    (forall c, Pc c -> fit c <> Panic) ->
+    (forall trs, exists r, find trs = Ok r) ->
+    exists v, vertex_res sp_of cluster fit find (Ok avs) = Ok v.
+  Proof.
+    intros HS HC HF HV. unfold vertex_res. cbn [bind].
+    destruct (ok_filter_total sp_of avs HS) as (pts & -> & _). cbn [bind].
+    destruct (HC pts) as (cl & rem & -> & Hcl). cbn [bind].
+    destruct (ok_filter_total fit cl) as (trs & -> & _). { intros c Hc. apply HF, Hcl, Hc. }
+    cbn [bind]. destruct (HV trs) as ([v rest] & ->). cbn [bind]. eauto.
+  Qed.
+End VertexWrapper.
+
+(* (6) conditional: the stages are the models of C15 (cluster_spacepoints_pub over equality classes of points) and
+   C14 (fit_cluster_to_helix, find_vertices); every numeric hypothesis of C14 is inherited, quantified over all
+   clusters / track lists *)
+Lemma vertex_total_partial_lemma :
+  forall (A F vpoint : Type) (sp_of : A -> res Cluster.point)
+    (bins : Cluster.point -> list Cluster.bin) (near : Cluster.point -> Cluster.point -> bool)
+    (p_r p_x p_y : Cluster.point -> F) (flt feq : F -> F -> bool)
+    (fcmp : F -> F -> option comparison) (fnan : F -> bool) (fadd fsub fmul : F -> F -> F)
+    (fhalf fabs : F -> F) (fzero : F)
+    (guess6 : list Cluster.point -> Cluster.point -> Cluster.point -> Cluster.point -> list F) (bump : F -> F)
+    (point_val closest : list F -> Cluster.point -> F)
+    (nm : (list F -> res F) -> list (list F) -> res (option (list F))) (sd_tol_ok : bool)
+    (teq : Fit.track F -> Fit.track F -> bool) (t_zb t_rad : Fit.track F -> F) (is_primary : Fit.track F -> bool)
+    (close_z : F -> F -> bool) (sumF : list F -> F) (mean_z : list (Fit.track F) -> F)
+    (sortP : list (Fit.track F) -> list (Fit.track F)) (vpoint_of : list F -> vpoint)
+    (vcost_val : list (Fit.track F) -> list F -> Fit.track F -> F) (vguess : F -> list F)
+    (tclosest : Fit.track F -> vpoint -> F),
+  (* C15 *) (forall p, NoDup (bins p)) ->
+  (* N1 *) (forall x y, fnan x = false -> fnan y = false -> fcmp x y <> None) ->
+  (* N2 *) (forall a b p, fnan (Fit.dev F Cluster.point p_r fsub fabs (fhalf (fadd (p_r a) (p_r b))) p) = false) ->
+  (* N3 *) (forall p q, fnan (point_val p q) = false) ->
+  (* N4 = V4 *) (forall (c : list F -> res F) s n,
+              (forall p, length p = n -> c p <> Panic /\ forall k, c p <> Err k) ->
+              Forall (fun v => length v = n) s -> s <> [] ->
+              exists v, nm c s = Ok (Some v) /\ length v = n) ->
+  (* N5 *) (forall pts f m l, length (guess6 pts f m l) = 6%nat) -> sd_tol_ok = true ->
+  (* std *) (forall l, Permutation (sortP l) l) ->
+  (* V1 *) (forall a b, fcmp (t_zb a) (t_zb b) <> None) ->
+  (* V2 *) (forall x y, fcmp (sumF (map t_rad x)) (sumF (map t_rad y)) <> None) ->
+  (* V3 *) (forall ts p t, fnan (vcost_val ts p t) = false) ->
+  (forall z, length (vguess z) = 3%nat) ->
+  (* V5 *) (forall t, teq t t = true) -> (forall a b, teq a b = true -> teq b a = true) ->
+  (forall a b c, teq a b = true -> teq b c = true -> teq a c = true) ->
+  forall avs : list A,
+  (* Z1 *) (forall a, In a avs -> sp_of a <> Panic) ->
+  exists v,
+    vertex_res sp_of (Cluster.cluster_spacepoints_pub bins near)
+      (Fit.fit_cluster_to_helix F Cluster.point p_r p_x p_y flt feq fcmp fnan fadd fsub fmul fhalf fabs fzero
+         guess6 bump point_val closest nm sd_tol_ok)
+      (Fit.find_vertices F vpoint fcmp fnan fadd fzero bump nm sd_tol_ok (Fit.track F) teq t_zb t_rad is_primary
+         close_z sumF mean_z sortP vpoint_of vcost_val vguess tclosest)
+      (Ok avs) = Ok v.
+Proof.
+  intros A F vpoint sp_of bins near p_r p_x p_y flt feq fcmp fnan fadd fsub fmul fhalf fabs fzero guess6 bump
+         point_val closest nm sd_tol_ok teq t_zb t_rad is_primary close_z sumF mean_z sortP vpoint_of vcost_val
+         vguess tclosest HB N1 N2 N3 N4 N5 SD ST V1 V2 V3 VG R S T avs Z1.
+  apply (vertex_res_total sp_of _ _ _ (fun c => (13 <= length c)%nat)); auto.
+  - intros pts. destruct (Cluster_proofs.cluster_pub_lemma bins near HB pts) as (cl & rem & E & _ & H).
+    exists cl, rem. split; auto. intros c Hc. apply H, Hc.
+  - intros c Hc.
+    apply (Fit_proofs.fit_skeleton_total_lemma F Cluster.point p_r p_x p_y flt feq fcmp fnan fadd fsub fmul fhalf fabs
+             fzero guess6 bump point_val closest nm sd_tol_ok c); auto. lia.
+  - intros trs.
+    apply (Fit_proofs.vertex_skeleton_total_lemma F vpoint fcmp fnan fadd fzero bump nm sd_tol_ok (Fit.track F) teq t_zb
+             t_rad is_primary close_z sumF mean_z sortP vpoint_of vcost_val vguess tclosest trs); auto.
+Qed.
